@@ -114,6 +114,9 @@ type Sched struct {
 	// Horizon bounds the number of steps (livelock guard).
 	Horizon int
 
+	// Trace records every step as thread<<8|kind.
+	Trace []uint16
+
 	Deadlock  bool
 	Livelock  bool
 	BadChoice bool
@@ -256,6 +259,7 @@ func (s *Sched) Run() {
 			s.Points = append(s.Points, PointRec{Enabled: en, RunningEnabled: runningEnabled, Chosen: c, Op: s.threads[en[c]].pending.Kind.String() + ":" + s.threads[en[c]].pending.Name})
 		}
 		t := s.threads[en[c]]
+		s.Trace = append(s.Trace, uint16(t.ID)<<8|uint16(t.pending.Kind))
 		last = t.ID
 		s.cur = t
 		t.resume <- struct{}{}
